@@ -66,7 +66,10 @@ class SigDirector:
             if spec.get("eq"):
                 ns["__eq__"] = lambda a, b: isinstance(b, type(a)) and a.v == b.v
                 ns["__hash__"] = lambda a: hash(a.v)
-            self.owner_classes.append(type(spec["name"], (base,), ns))
+            # classes made by one class factory: different classes under one and the same qualified name - unless the
+            # case has per-class private (name-mangled) signals, whose attribute names are built from the class names
+            mangled = any(a.startswith("_") for sp in c["classes"] for a in sp["signals"])
+            self.owner_classes.append(type(spec["name"] if mangled else "Owner", (base,), ns))
         self.instances = []
         for i, k in enumerate(c["instances"]):
             if str(i) in c.get("copies", {}) or str(i) in c.get("reborn", {}):
@@ -114,6 +117,16 @@ class SigDirector:
 
     def make_filter(self, spec: dict[str, Any]) -> Any:
         f = self.make_filter_fn(spec)
+        if f is not None:
+            # filters have a memory ("the first time this is seen", rate limits, "changed since the last one"): asked a
+            # second time about an event they have already let through, they say no
+            pure, asked = f, set()
+
+            def f(e: Any) -> bool:
+                if e.seq in asked:
+                    return False
+                asked.add(e.seq)
+                return bool(pure(e))
         if f is not None and spec.get("obj"):
             from .kernel import CallableObject
 
